@@ -198,7 +198,7 @@ def free_environment(ck, pid, rnd, n, steps):
     scns = scenarios(rnd, n)
     for s in scns:
         s["env"] = []
-        s["steps"] = steps
+        s["steps"] = steps if len(s["st0"]) == 1 else steps - 1       # two supply links: 12 choices per interval instead of 6
     exp, bad = expected(scns, ck, emit=False)
     for b in bad:
         ck.violation(pid + ".runsim_model", "RunSim.tla invariant violated under a free environment", {"tlc": b})
